@@ -385,7 +385,7 @@ func TestVerifC11(t *testing.T) {
 		}
 	}
 	// (a1) inter-frame coding: every ordered pair of images over a block of interior pixels
-	block := 2
+	block := 3
 	if r.Thorough() {
 		block = 4
 	}
@@ -538,23 +538,21 @@ func TestVerifC11(t *testing.T) {
 			}
 		}
 	}
-	if !r.Thorough() {
-		var few []e2eSettings
-		for i, s := range combos {
-			if i%5 == 0 || s.Model != "boson" && i%3 == 0 {
-				few = append(few, s)
-			}
-		}
-		combos = few
-	}
 	recs := 0
 	recsPerModel := map[string]int{}
-	for i := range combos {
+	// motion patterns: one burst in the middle; thorough also an early short burst and a burst that is
+	// still going on when the connection ends (the open recording is discarded, never finished)
+	bursts := [][2]int{{8, 26}}
+	if r.Thorough() {
+		bursts = [][2]int{{8, 26}, {2, 9}, {20, 40}}
+	}
+	for bi := 0; bi < len(bursts)*len(combos); bi++ {
+		i, b := bi%len(combos), bursts[bi/len(combos)]
 		s := combos[i]
-		c := c11Case{Stage: "e2e", S: &s, N: 40, Burst: [2]int{8, 26}}
+		c := c11Case{Stage: "e2e", S: &s, N: 40, Burst: b}
 		if s.Model != "boson" {
 			c.N = 30
-			c.Burst = [2]int{5, 16}
+			c.Burst = [2]int{b[0] * 5 / 8, b[1] * 16 / 26}
 		}
 		sig, msg, n := runC11E2E(c)
 		recs += n
@@ -589,9 +587,10 @@ func TestVerifC11(t *testing.T) {
 		viol(c, sig, msg)
 	}
 	r.Bounds["e2e_setting_combinations"] = len(combos)
+	r.Bounds["e2e_motion_patterns"] = len(bursts)
 	r.Extra["e2e_motion_recordings_compared"] = recs
 	r.Extra["e2e_motion_recordings_per_model"] = recsPerModel
-	r.Rule = "(a) recorder level, real CPTVFileRecorder -> go-cptv writer -> standard reader: every ordered pair of images over a block of 2 (quick) / 4 (thorough) interior pixels x values {1,255,256,32767,32768,65535} as consecutive frames (inter-frame delta coding), every pixel position x value on 8x6 (and sampled positions on 160x120), telemetry words / temperatures / threshold / preview / fps / ids / strings of length 0,1,255 and YAML-hostile content / location components 0, +, -, unset, one field at a time; (b) end to end: generated config.toml (min/max/preview secs, trigger frames, throttling on/off, camera model lepton3 / lepton3.5 with model motion defaults / boson, continuous recorder on/off) parsed by the real ParseConfig, socket bytes served to the real handleConn, every finished file compared (frames, background, threshold, header incl. motion YAML) with the recordings predicted by driving a real MotionProcessor wired by the harness from the same settings; plus the camera reconnecting to the same daemon instance as another model (lepton3 <-> lepton3.5, boson -> lepton3.5): the second connection's files must follow the second model's defaults. Non-trivial = every case."
+	r.Rule = "(a) recorder level, real CPTVFileRecorder -> go-cptv writer -> standard reader: every ordered pair of images over a block of 3 (quick) / 4 (thorough) interior pixels x values {1,255,256,32767,32768,65535} as consecutive frames (inter-frame delta coding), every pixel position x value on 8x6 (and sampled positions on 160x120), telemetry words / temperatures / threshold / preview / fps / ids / strings of length 0,1,255 and YAML-hostile content / location components 0, +, -, unset, one field at a time; (b) end to end: generated config.toml (min/max/preview secs, trigger frames, throttling on/off, camera model lepton3 / lepton3.5 with model motion defaults / boson, continuous recorder on/off) parsed by the real ParseConfig, socket bytes served to the real handleConn, every finished file compared (frames, background, threshold, header incl. motion YAML) with the recordings predicted by driving a real MotionProcessor wired by the harness from the same settings; plus the camera reconnecting to the same daemon instance as another model (lepton3 <-> lepton3.5, boson -> lepton3.5): the second connection's files must follow the second model's defaults. Non-trivial = every case."
 	r.Assumptions = []string{"data values outside the alphabets are not covered: universality over 16-bit data is not what state enumeration gives", "the reference side of (b) shares the motion processor, detector, throttle and parsers with the daemon (they are decided by C01-C09/C13); what is compared is main.go/config.go wiring and the file recorder", "NewThrottledRecorder uses the real clock: min-refill 24 h makes its contribution < 1 token"}
 	finish(t, r)
 }
